@@ -200,7 +200,7 @@ def _b(bits) -> str:
 
 
 # ------------------------------------------------------------------------------------ generators
-KINDS = ["basic", "basic", "method1", "methodN", "nested", "two", "free", "basic", "methodN", "nested"]
+KINDS = ["basic", "chain", "method1", "methodN", "nested", "two", "chain", "basic", "methodN", "nested", "free", "chain"]
 
 
 def _has_two_prio(spec: dict) -> bool:
@@ -217,6 +217,19 @@ def _has_two_prio(spec: dict) -> bool:
         return n
 
     return any(count(it["block"]) >= 2 for it in spec["items"])
+
+
+def _all_calls(block) -> list:
+    out = []
+    for s in block:
+        if s["k"] == "call":
+            out.append(s["m"])
+        elif s["k"] == "cond":
+            for br in s["branches"]:
+                out += _all_calls(br["block"])
+        elif s["k"] == "trans":
+            out += _all_calls(s["block"])
+    return out
 
 
 def descriptor(spec: dict) -> dict:
@@ -263,12 +276,24 @@ def descriptor(spec: dict) -> dict:
                     return True
         return False
 
+    # methods reached through at least one conditional link (directly or through their callers)
+    cond_called = {m for m, ens in callers.items() if any(e is not None for e in ens)}
+    top = {it["name"]: it for it in spec["items"]}
+    changed = True
+    while changed:
+        changed = False
+        for nm, it in top.items():
+            if nm in cond_called:
+                for m in _all_calls(it["block"]):
+                    if m not in cond_called:
+                        cond_called.add(m)
+                        changed = True
     nx_multi = deep = shared = False
     for it in spec["items"]:
         has_cond = any(s["k"] == "cond" for s in it["block"])
         if it["k"] == "method" and it.get("nx") and len(callers.get(it["name"], [])) >= 2 and has_cond:
             nx_multi = True
-        if it["k"] == "method" and depth(it["block"]) >= 3 and any(e is not None for e in callers.get(it["name"], [])):
+        if it["k"] == "method" and depth(it["block"]) >= 3 and it["name"] in cond_called:
             deep = True
         if shared_levels({x["m"] for x in it["block"] if x["k"] == "call"}, it["block"]):
             shared = True
@@ -296,10 +321,20 @@ def est_groups(spec: dict) -> int:
 
     total = 0
     per = {it["name"]: block_groups(it["block"]) for it in spec["items"]}
+    top = {it["name"]: it for it in spec["items"]}
+
+    def reaches(src, dst, seen=None) -> bool:
+        seen = seen or set()
+        for m in _all_calls(top[src]["block"]):
+            if m == dst or (m in top and m not in seen and reaches(m, dst, seen | {m})):
+                return True
+        return False
+
     for it in spec["items"]:
         g = per[it["name"]]
         if g > 1 or any(s["k"] == "cond" for s in it["block"]):
-            total += g * (max(callers.get(it["name"], 0), 1) if it["k"] == "method" else 1)
+            ntr = sum(1 for o in spec["items"] if o["k"] == "trans" and reaches(o["name"], it["name"]))
+            total += g * (max(ntr, 1) if it["k"] == "method" else 1)
     return total
 
 
@@ -349,6 +384,16 @@ def directed() -> list[dict]:
         {"k": "method", "name": "M0", "ready": None, "nx": 0, "block": [
             {"k": "cond", "nb": 0, "prio": 1, "branches": [{"c": 0, "block": [_call("x0")]}, {"c": 1, "block": [_call("x1")]}]}]},
         {"k": "trans", "name": "T0", "ready": 2, "block": [_call("M0", en=3)]}], "c12:directed-condcall"))
+    # the condition-hosting method is called unconditionally by a wrapper that is called conditionally (and one level more)
+    host = {"k": "method", "name": "M0", "ready": None, "nx": 0, "block": [
+        {"k": "cond", "nb": 0, "prio": 0, "branches": [{"c": 0, "block": [_call("x0")]}]}]}
+    out.append(_mk(4, [("x0", None)], [
+        host, {"k": "method", "name": "M1", "ready": None, "nx": 0, "block": [_call("M0")]},
+        {"k": "trans", "name": "T0", "ready": 1, "block": [_call("M1", en=2)]}], "c12:directed-chain2"))
+    out.append(_mk(5, [("x0", None)], [
+        host, {"k": "method", "name": "M1", "ready": None, "nx": 0, "block": [_call("M0")]},
+        {"k": "method", "name": "M2", "ready": None, "nx": 0, "block": [_call("M1", en=3)]},
+        {"k": "trans", "name": "T0", "ready": 1, "block": [_call("M2", en=2)]}], "c12:directed-chain3"))
     # uncalled method with a condition (its branches are dropped by the manager)
     out.append(_mk(3, [("x0", None)], [
         {"k": "method", "name": "M0", "ready": None, "nx": 0, "block": [
@@ -408,7 +453,7 @@ def run(ctx: Check):
     ctx.rule = ("cases = (circuit using condition(), input valuation); non-trivial = circuits with >= 2 merged transactions "
                 "of which one ran in some valuation (blocking/nonblocking, priority, default, overlapping, nested, in methods "
                 "with one or several callers, shared callees)")
-    run_simul(ctx, "C12", gen, monitor, directed(), witness_specs, nontrivial, n_quick=56, n_thorough=1600,
+    run_simul(ctx, "C12", gen, monitor, directed(), witness_specs, nontrivial, n_quick=48, n_thorough=1600,
               descriptor=descriptor)
 
 
